@@ -20,10 +20,10 @@ import (
 )
 
 type NativeEnv struct {
-	Funcs   map[string]reflect.Value // "go/types.AssignableTo" -> func
-	Globals map[string]reflect.Value // "go/types.Typ" -> value
-	Types   map[string]reflect.Type  // "*go/types.Named" -> reflect type
-	Calls   int
+	Funcs       map[string]reflect.Value // "go/types.AssignableTo" -> func
+	Globals     map[string]reflect.Value // "go/types.Typ" -> value
+	Types       map[string]reflect.Type  // "*go/types.Named" -> reflect type
+	Calls       int
 	placeholder map[string]types.Type
 }
 
